@@ -139,10 +139,27 @@ func directedScenarios(w *world) []*scenario {
 		p.call(opCALL, "CALL", w.emptyExisting, Bi(0), nil, 0)
 		p.end(endSelfdestruct, w.absent[0])
 	})}, nil, nil, callTx(c[0], 0, 400000), callTx(w.emptyExisting, 0, 50000), callTx(w.absent[0], 0, 50000))
+	// the block and transaction context the interpreter reports
+	add("block-context", map[int][]byte{0: build(func(p *prog) {
+		for _, e := range []struct {
+			op byte
+			n  string
+		}{{opTIMESTAMP, "TIMESTAMP"}, {opNUMBER, "NUMBER"}, {opCOINBASE, "COINBASE"}, {opBASEFEE, "BASEFEE"}, {opGASLIMIT, "GASLIMIT"}, {opCHAINID, "CHAINID"},
+			{opDIFFICULTY, "DIFFICULTY"}, {opGASPRICE, "GASPRICE"}, {opORIGIN, "ORIGIN"}, {opCALLER, "CALLER"}, {opCALLVALUE, "CALLVALUE"}, {opSELFBALANCE, "SELFBALANCE"},
+			{opCODESIZE, "CODESIZE"}, {opCALLDATASIZE, "CALLDATASIZE"}, {opADDRESS, "ADDRESS"}, {opPUSH0, "PUSH0"}} {
+			p.env(e.op, e.n)
+		}
+		for n := uint64(0); n < 6; n++ {
+			p.blockhash(n)
+		}
+		p.blockhash(1 << 40)
+		p.end(endReturn, common.Address{})
+	})}, nil, nil, txSpec{Sender: 1, To: &c[0], Value: Bi(17), Gas: 200000, Type: 2, Data: []byte{1, 2, 3}}, callTx(c[0], 0, 200000))
 	// everything a reverted frame did to the access list, the refund counter, the logs and the self-destruct set must be
 	// gone: a DELEGATECALL frame (same storage context) warms slots and addresses, clears a slot (refund), logs,
 	// self-destructs, then fails; the caller then touches the same slots / addresses and reports GAS
-	for ei, endKind := range []int{endRevert, endInvalid} {
+	for ei, endKind := range []int{endRevert, endInvalid, endRevert} {
+		ei, endKind := ei, endKind
 		add(fmt.Sprintf("reverted-frame-leaves-no-trace-%d", ei), map[int][]byte{0: build(func(p *prog) {
 			p.sload(Bi(0))
 			p.call(opDELEGATECALL, "DELEGATECALL", c[1], Bi(0), Bi(100000), 0)
@@ -157,7 +174,12 @@ func directedScenarios(w *world) []*scenario {
 			p.call(opCALL, "CALL", c[2], Bi(0), Bi(100000), 0)
 			p.ext(opEXTCODESIZE, "EXTCODESIZE", c[3])
 			p.env(opGAS, "GAS")
-			p.end(endReturn, common.Address{})
+			if ei == 2 {
+				// credit the contract that self-destructed inside the reverted frame: it is touched again, and must survive
+				p.end(endSelfdestruct, c[3])
+			} else {
+				p.end(endReturn, common.Address{})
+			}
 		}), 1: build(func(p *prog) {
 			p.sload(Bi(1))
 			p.sstore(Bi(2), Bi(9))
